@@ -461,6 +461,8 @@ class Flow:
             elif what == "iterunpack":
                 it, idx = payload
                 zp = self._zip_position(it, idx, f, env, depth)
+                if zp is None:
+                    zp = self._generator_position(it, idx, f, env, depth)
                 if zp is not None:
                     out |= zp
                     continue
@@ -515,7 +517,25 @@ class Flow:
                 return self._iter_elems(self.term(it.args[0], f, env, depth + 1), env, depth)
         return None
 
-    def _consumed(self, arg_terms, env, depth):
+    def _generator_position(self, it, idx, f, env, depth):
+        """for a, b in gen(x) with gen a package generator function all of whose yields are tuple displays: the idx-th target
+        takes what the idx-th element of a yield can be."""
+        if not isinstance(it, ast.Call) or idx is None:
+            return None
+        tg = [k[1] for k in self.res.kinds(it.func, f) if k[0] == "func"]
+        if len(tg) != 1 or not tg[0].is_generator:
+            return None
+        G = tg[0]
+        ys = [y for y in own_nodes(G.node) if isinstance(y, (ast.Yield, ast.YieldFrom))]
+        if not ys or not all(isinstance(y, ast.Yield) and isinstance(y.value, ast.Tuple) and len(y.value.elts) > idx and not any(isinstance(e, ast.Starred) for e in y.value.elts) for y in ys):
+            return None
+        cenv = self._bind_env(G, it, f, env, depth, skip_self=G.cls is not None and not G.is_static)
+        out = set()
+        for y in ys:
+            out |= self.term(y.value.elts[idx], G, cenv, depth + 1)
+        return frozenset(out)
+
+    def _consumed(self, arg_terms, env, depth, scalars_only=False):
         """An argument that is iterated by its consumer (b''.join(x), list(x), x.extend(y) ...): a package iterator instance
         contributes what its __next__ returns, not the arguments it was constructed with."""
         if not any(t[0] == "inst" for t in arg_terms):
@@ -524,6 +544,8 @@ class Flow:
         rest = frozenset(t for t in arg_terms if t[0] != "inst")
         elems = self._iter_elems(insts, env, depth)
         keep = frozenset(t for t in elems if not (t[0] == "elem" and t[1] <= insts))
+        if scalars_only and any(t[0] != "list" for t in keep):
+            keep = frozenset(t for t in keep if t[0] != "list")
         not_iter = frozenset(x for t in elems if t[0] == "elem" for x in t[1] if x in insts)
         return rest | not_iter | (frozenset([("elem", keep)]) if keep else frozenset())
 
@@ -1004,7 +1026,9 @@ class Flow:
                 name = t[2] if t[0] == "bmeth" else t[1]
                 recv = self.term(e.func.value, fn, env, depth + 1, mod) if isinstance(e.func, ast.Attribute) else fs()
                 if name in ("join", "extend", "update", "writelines") and args:
-                    args = tuple(self._consumed(a, env, depth) for a in args)
+                    # sep.join(it): every element is a string / bytes object - an iterator that sometimes yields tuples
+                    # (another mode of the same class) cannot be feeding this call, it would raise TypeError
+                    args = tuple(self._consumed(a, env, depth, scalars_only=(name == "join")) for a in args)
                 out.add(("meth", name, recv, args))
             elif t[0] == "lambda":
                 out |= self.term(t[1].body, fn, env, depth + 1, mod)
